@@ -125,6 +125,7 @@ class Tr:
         self.tpl_nodes = [ast.parse(t['src'], mode='eval').body for t in spec.templates]
         self.loop_depth = 0
         self.loop_ks = []
+        self.in_region = 0
         self.size = 0
 
     # ------------------------------------------------------------------ helpers
@@ -475,6 +476,10 @@ class Tr:
             # a op1 b op2 c: b is evaluated once, c only when the first comparison holds
             a, ta = self.expr(e.left, env)
             b, tb = self.expr(e.comparators[0], env)
+            if ta == DYN:
+                a, ta = self.bind('dyn_int %s' % a), INT
+            if tb == DYN:
+                b, tb = self.bind('dyn_int %s' % b), INT
             r1 = self.order(e.ops[0], a, ta, b, tb, e)
             (r2, binds) = self.lazy(lambda: self.order(e.ops[1], b, tb, *self.expr(e.comparators[1], env), e))
             if binds:
@@ -714,13 +719,6 @@ class Tr:
             if len(arg_nodes) != len(callee.params):
                 self.fail(e, 'self.%s(): wrong number of arguments' % f.attr)
             args = []
-            mine = dict(self.spec.self_attrs)
-            for a, t in callee.self_attrs:
-                if a in callee.used_attrs:
-                    if mine.get(a) != t:
-                        self.fail(e, 'self.%s() needs self.%s, which this function does not declare' % (f.attr, a))
-                    self.used.add(a)
-                    args.append('self_' + a)
             for pn, sig in callee.used_tparams:
                 mine_t = [t_ for t_ in self.spec.templates if t_.get('param') == pn]
                 sigs = set(' -> '.join([self.ctype(t) for t in t_['holes'] if t not in (OPAQUE, FLOATLIT)]
@@ -730,6 +728,13 @@ class Tr:
                 if (pn, sig) not in self.used_tpl:
                     self.used_tpl.append((pn, sig))
                 args.append(pn)
+            mine = dict(self.spec.self_attrs)
+            for a, t in callee.self_attrs:
+                if a in callee.used_attrs:
+                    if mine.get(a) != t:
+                        self.fail(e, 'self.%s() needs self.%s, which this function does not declare' % (f.attr, a))
+                    self.used.add(a)
+                    args.append('self_' + a)
             for x, (_, t) in zip(arg_nodes, callee.params):
                 a, ta = self.expr(x, env)
                 args.append(self.coerce_m(a, ta, t, x))
@@ -822,6 +827,51 @@ class Tr:
             return 'is' if isinstance(c.ops[0], ast.Is) else 'isnot'
         return None
 
+    @staticmethod
+    def can_fall(stmts):
+        """can control reach the end of this block? (syntactic)"""
+        stmts = [s_ for s_ in stmts if not isinstance(s_, ast.Pass)]
+        if not stmts:
+            return True
+        last = stmts[-1]
+        if isinstance(last, (ast.Return, ast.Raise, ast.Continue)):
+            return False
+        if isinstance(last, ast.Assert) and isinstance(last.test, ast.Constant) and last.test.value is False:
+            return False
+        if isinstance(last, ast.If):
+            return Tr.can_fall(last.body) or Tr.can_fall(last.orelse)
+        return True
+
+    @staticmethod
+    def big(stmts):
+        return len(stmts) > 3 or any(isinstance(n, ast.For) for s_ in stmts for n in ast.walk(s_))
+
+    def region(self, st, rest, env, k, ret, ind):
+        pad = '  ' * ind
+        carried = [v for v in self.assigned([st]) if v in env]
+
+        def tup(vs):
+            return 'tt' if not vs else vs[0] if len(vs) == 1 else '(%s)' % ', '.join(vs)
+
+        def k_reg(env2, ind2):
+            for v in carried:
+                if env2.get(v) != env[v]:
+                    raise TableError('region: variable %s changes its type' % v)
+            return '%sOk (Next %s)\n' % ('  ' * ind2, tup(carried))
+
+        def ret_reg(t, ty, node):
+            return 'Ok (Ret %s)' % self.coerce(t, ty, self.spec.ret, node)
+        inner = ast.copy_location(ast.If(test=st.test, body=st.body, orelse=st.orelse), st)
+        self.in_region += 1
+        try:
+            body = self.block([inner], env, k_reg, ret_reg, ind + 1)
+        finally:
+            self.in_region -= 1
+        c, rv = self.fresh('c'), self.fresh('rv')
+        after = self.block(rest, env, k, ret, ind + 1)
+        return ('%sdo %s <- (\n%s%s  );\n%smatch %s with\n%s| Ret %s => %s\n%s| Next %s =>\n%s%send\n'
+                % (pad, c, body, pad, pad, c, pad, rv, ret(rv, self.spec.ret, st), pad, tup(carried) if carried else '_', after, pad))
+
     def block(self, stmts, env, k, ret, ind):
         """stmts: remaining statements; k(env, ind) -> text for falling off the end; ret(term, type, node) -> text"""
         pad = '  ' * ind
@@ -905,6 +955,15 @@ class Tr:
             if rest:
                 self.fail(rest[0], 'statement after assert False')
             return pad + 'Err ECrash\n'
+        if isinstance(st, ast.If) and self.can_fall(st.body) and self.can_fall(st.orelse) and self.big(rest) \
+                and not any(isinstance(n, ast.Continue) for n in ast.walk(st)):
+            # both branches fall through into a long continuation: translate the `if` as a region with an explicit outcome
+            # (Ret = a return inside it, Next = the variables it assigned) instead of copying the continuation into each branch
+            saved = (self.tmp, self.size)
+            try:
+                return self.region(st, rest, env, k, ret, ind)
+            except TableError:
+                self.tmp, self.size = saved        # e.g. the continuation needs a type narrowed by the test: copy it instead
         if isinstance(st, ast.If):
             def k2(env2, ind2):
                 return self.block(rest, env2, k, ret, ind2)
